@@ -449,7 +449,7 @@ class Engine:
 
 
 # --------------------------------------------------------------------------- expression evaluator
-SPEC_FUNCS = {'sadd', 'sdel', 'forall', 'exists', 'implies', 'iff', 'old', 'card', 'dom', 'ite', 'empty', 'INV', 'subset', 'disjoint',
+SPEC_FUNCS = {'some', 'exc_is', 'sadd', 'sdel', 'forall', 'exists', 'implies', 'iff', 'old', 'card', 'dom', 'ite', 'empty', 'INV', 'subset', 'disjoint',
               'fresh_of', 'keys', 'isnone', 'some', 'unopt', 'select', 'tuple_of', 'typed_empty'}
 
 
@@ -755,6 +755,10 @@ class Evaluator:
 
     def member(self, x: SV, coll: SV):
         t = coll.t
+        if t.k in ('set', 'list') and t.args[0] == U('Inst') and x.t == U('Task'):
+            # `task in tasks` compares with ==, i.e. by value
+            f = self.ctx.func('Inst_to_Task', [U('Inst')], U('Task'))
+            return self.ctx.exists([U('Inst')], lambda i: z3.And(z3.Select(coll.z, i), f(i) == x.z))
         if t.k in ('set', 'list'):
             return z3.Select(coll.z, self.eng.coerce(x, t.args[0]).z)
         if t.k == 'map':
@@ -959,6 +963,8 @@ class CallEval:
             h = getattr(self, 'fn_' + nm, None)
             if h is not None and (nm not in SPEC_FUNCS or self.e.spec or nm in ('len',)):
                 return h(n)
+            if self.e.spec and len(n.args) == 1 and nm in self.R.view_names:
+                return self.view(nm, n)
             if nm in self.R.macros and self.e.spec:
                 return self.macro(nm, n)
             if nm in self.R.deffuncs and self.e.spec:
@@ -971,6 +977,16 @@ class CallEval:
             for sort, rec in self.R.records.items():
                 if rec.ctor and rec.cls.split(':')[-1] == nm and not n.args and not n.keywords:
                     return self.eng.new_record(self.e.st, sort)
+                if rec.ctor_kwargs and rec.cls.split(':')[-1] == nm and not n.args:
+                    x = self.eng.new_record(self.e.st, sort)
+                    given = {k.arg: self.e.ev(k.value) for k in n.keywords}
+                    if set(given) != set(rec.immutable):
+                        raise Unsupported(f'{nm}(...) keywords do not match the declared record fields')
+                    for fld, v in given.items():
+                        ft = parse_type(rec.immutable[fld])
+                        fv = self.eng.apply_func(f'{sort}.{fld}', [x], ft, [U(sort)])
+                        self.e.st.assume(self.ctx.eq(ft, fv.z, self.eng.coerce(v, ft).z))
+                    return x
             c = self.eng.resolve_function(nm)
             if c is not None and c.pure:
                 return self.pure_contract(c, None, n)
@@ -980,6 +996,16 @@ class CallEval:
         raise Unsupported('call form')
 
     # ---- spec functions
+    def fn_some(self, n):
+        v = self.e.ev(n.args[0])
+        return SV(OPT(v.t), {'none': z3.BoolVal(False), 'v': v.z})
+
+    def fn_exc_is(self, n):
+        e_ = self.e.ev(n.args[0])
+        if e_.t.k == 'opt':
+            return SV(BOOL, z3.And(z3.Not(e_.z['none']), self.eng.is_kind(e_.z['v'], n.args[1].value)))
+        return SV(BOOL, self.eng.is_kind(e_.z, n.args[1].value))
+
     def fn_sadd(self, n):
         s_ = self.e.ev(n.args[0])
         x = self.eng.coerce(self.e.ev(n.args[1]), s_.t.args[0])
@@ -1126,6 +1152,16 @@ class CallEval:
                     e = Evaluator(self.eng, sub, spec=True, heap=self.e.heap)
                     conj.append(self.eng.truth(e.ev(ast.parse(cl.expr.strip(), mode='eval').body)))
         return SV(BOOL, z3.And(conj) if conj else z3.BoolVal(True))
+
+    def view(self, nm, n):
+        """Abstract view VIEW(obj): the defining expression is looked up on the class of obj (abstraction function)."""
+        obj = self.e.ev(n.args[0])
+        for d in self.eng.class_chain(self.eng.class_of(obj)):
+            if nm in d.views:
+                sub = State([{'self': obj}], self.e.heap, self.e.st.pc, self.e.st.old)
+                e = Evaluator(self.eng, sub, spec=True, heap=self.e.heap)
+                return e.ev(ast.parse(d.views[nm].strip(), mode='eval').body)
+        raise SpecError(f'view {nm} not defined for {obj.t}')
 
     def macro(self, nm, n):
         params, text = self.R.macros[nm]
